@@ -108,6 +108,11 @@ func runMint(seed uint64, n int, out *Out) {
 			sup := e.Supply()
 			num := r.Pick([]int64{1, 40, 50, 51, 60, 90, 99, 100, 101, 150})
 			p.ExcludeAmount = sup.MulRaw(num).QuoRaw(100)
+			if r.Chance(35) {
+				// all but a few tokens excluded: the share of one block is a fraction of a token and is minted through the
+				// carried remainder only
+				p.ExcludeAmount = sup.SubRaw(r.Pick([]int64{1, 10, 100, 1000, 6000, 50000}))
+			}
 		}
 		valid := p.Validate() == nil
 		out.Op("%s", opParams(p))
